@@ -174,7 +174,7 @@ class C15(Prop):
         res = [r for r in results if r[0] in ("jsonset", "obs", "yamlset")]
         ol = [o for o in ops if o[0] in ("jsonset", "match", "yamlset")]
         if not (len(raws) == len(res) == len(ol)):
-            return []
+            return self.skip("guard")
         for raw, (kind, idx, o), (name, kv) in zip(raws, res, ol):
             if "exp" not in raw:
                 continue
